@@ -104,4 +104,16 @@ theorem decode_encode (m : Msg) (h : WF m) (rest : Bytes) :
   rw [decRecs_recBytes m.ac_control h]
   rfl
 
+/-! ### the run-time well-formedness test decides `WF` -/
+
+theorem wfRecBool_iff (c : AcControlData) : wfRecBool c = true ↔ WFRec c := by
+  rcases c with ⟨n, pw, md, fs, sp⟩
+  cases sp with
+  | none => simp [wfRecBool, WFRec]
+  | some v => simp [wfRecBool, WFRec]
+
+theorem wfBool_iff (m : Msg) : wfBool m = true ↔ WF m := by
+  simp only [wfBool, WF, List.all_eq_true]
+  exact ⟨fun h c hc => (wfRecBool_iff c).1 (h c hc), fun h c hc => (wfRecBool_iff c).2 (h c hc)⟩
+
 end PyAirtouch.Lemmas.At5C022
